@@ -196,5 +196,13 @@ func Gen(t *rapid.T, o GenOpts) *EpochSpec {
 		le.Txs = append(le.Txs, tx)
 		ntx++
 	}
+	// the last block on the very last slot of the epoch (the last entry of every per-slot table)
+	if rapid.IntRange(0, 5).Draw(t, "tailOnLastSlot") == 0 && (s.Epoch > 0 || len(s.Blocks) > 2) {
+		span := 0
+		for _, b := range s.Blocks[1:] {
+			span += b.Gap
+		}
+		s.Blocks[0].Gap = SlotsPerEpoch - 1 - span
+	}
 	return s
 }
